@@ -55,7 +55,7 @@ def h_array(n: int, k1: int, k2: int, index: int, crash_at: int, torn: int, torn
     assume(0 <= n <= BIG and 0 <= k1 <= BIG and 0 <= k2 <= BIG)
     small(_small, n, k1, k2, index)
     w = new_world()
-    md = {'k': 1} if op == 'metadata-del' else None
+    md = {'k': 1} if op in ('metadata-del', 'metadata-update') else None
     put_array(D, w, '/w/a', n, numtype, bo, atom, metadata=md)
     a = D.array.Array('/w/a', accessmode='r+')
     orig = Seq.of(('orig',), n)
@@ -91,6 +91,8 @@ def h_array(n: int, k1: int, k2: int, index: int, crash_at: int, torn: int, torn
             a.metadata['x'] = 5
         elif op == 'metadata-del':
             a.metadata.pop('k')
+        elif op == 'metadata-update':
+            a.metadata['x'] = 5
     except Crash:
         crashed = True
         reach('crashed')
@@ -122,6 +124,8 @@ def h_array(n: int, k1: int, k2: int, index: int, crash_at: int, torn: int, torn
                 if op == 'metadata-set' and m != {} and m != {'x': 5}:
                     raise Violation('metadata shows a state that is neither before nor after', got=m)
                 if op == 'metadata-del' and m != {} and m != {'k': 1}:
+                    raise Violation('metadata shows a state that is neither before nor after', got=m)
+                if op == 'metadata-update' and m != {'k': 1} and m != {'k': 1, 'x': 5}:
                     raise Violation('metadata shows a state that is neither before nor after', got=m)
     reach('end')
 
@@ -249,7 +253,7 @@ def gen():
 if kind == 'array':
     n = spec['n']
     orig = vals(n, 1).astype(dt)
-    md = {'k': 1} if spec['op'] == 'metadata-del' else None
+    md = {'k': 1} if spec['op'] in ('metadata-del', 'metadata-update') else None
     if n > 0: a = darr.asarray(path, orig, accessmode='r+', metadata=md)
     else: a = darr.create_array(path, shape=(0,) + atom, dtype=dt, accessmode='r+', metadata=md)
     cands = [orig]
@@ -296,6 +300,7 @@ try:
     elif op == 'truncate': (darr.truncate_array if kind == 'array' else darr.truncate_raggedarray)(a, spec['index'])
     elif op == 'metadata-set': a.metadata['x'] = 5
     elif op == 'metadata-del': a.metadata.pop('k')
+    elif op == 'metadata-update': a.metadata['x'] = 5
 except BaseException as e:
     pass
 sys.settrace(None)
@@ -328,6 +333,15 @@ for idx, st in enumerate(states):
             ok = any(len(got) == len(c) and b.size == sum(x.size for x in c) and all(g.shape == x.shape and g.tobytes() == x.tobytes() for g, x in zip(got, c)) for c in cands)
     except BaseException as e:
         ok = False
+    if ok and spec['op'].startswith('metadata'):
+        mdc = {'metadata-set': [{}, {'x': 5}], 'metadata-del': [{}, {'k': 1}],
+               'metadata-update': [{'k': 1}, {'k': 1, 'x': 5}]}[spec['op']]
+        try:
+            m = dict(b.metadata)
+        except BaseException:
+            m = None            # unreadable metadata raise: allowed
+        if m is not None and m not in mdc:
+            ok = False
     if not ok:
         bad.append({'state': idx, 'of': len(states), 'files': {k: len(v) for k, v in st.items()},
                     'len': len(b), 'size': b.size})
@@ -372,7 +386,8 @@ def obligations(tier):
     cfgs = [('int32', 'little', ()), ('float64', 'big', (2,))]
     asplits = []
     for op, failing in (('iterappend', False), ('iterappend', True), ('append', False),
-                        ('truncate', False), ('metadata-set', False), ('metadata-del', False)):
+                        ('truncate', False), ('metadata-set', False), ('metadata-del', False),
+                        ('metadata-update', False)):
         for (nt, bo, at) in (cfgs if thorough or op in ('iterappend', 'truncate') else cfgs[:1]):
             for cr in ([(0, 5), (5, HORIZON + 1)] if op == 'iterappend' else [None]):
                 asplits.append(dict(op=op, failing=failing, numtype=nt, bo=bo, atom=at, cr=cr,
